@@ -481,6 +481,7 @@ func acaoClass(o obsT, q reqT) string {
 }
 
 func main() {
+	core.SuperviseSelf("C19") // a runtime fatal error inside the code under test is a finding, not a harness error
 	// The statement only says ACAO is emitted ONLY for permitted origins. The converse
 	// (a permitted origin does get ACAO) is observed and reported in the evidence, and
 	// becomes a violation only with -demand-emission.
